@@ -5,10 +5,17 @@ Binding A: TLC-exported (table, query, exact result) vectors replayed into
            InterpolatingOpacity.opacity (xsec layout and k-table layout, full and sub-range grids).
 Binding B: random integer tables / node spacings / queries through the real code, every call
            validated by TLC against the same operators (scaled comparison) + canary.
+Edges:     spec/MC_InterpEdge.tla -- the same operators on a FINE lattice (milli-kelvin, micro-dex): queries a hair
+           inside / outside every grid edge and beside every node; the region dispatch is exact, nothing is loosened.
+Storage:   spec/TableStorage.tla -- memory order of the axes, element type and holder (array, pickle, HDF5 streamed /
+           in memory, object served by OpacityCache) of the table are free dimensions: TLC exports the storage classes,
+           the vectors are replayed through every one of them.
 """
 import math
 import os
 import random
+import shutil
+import tempfile
 from fractions import Fraction
 
 import numpy as np
@@ -31,33 +38,68 @@ def expected_value(vec):
     return math.pow(float(a), 1.0 - float(w)) * math.pow(float(b), float(w))
 
 
-def p_of(c):
-    return 10.0 ** c
+def p_of(c, ys=1):
+    """pressure (Pa) of the lattice coordinate c; ys lattice units per dex.  Whole decades are computed as 10.0 ** int,
+    exactly as the nodes of the fixture tables are."""
+    if c % ys == 0:
+        return 10.0 ** (c // ys)
+    return 10.0 ** (c / ys)
 
 
-def coords_exact(pn, y):
-    """The region dispatch compares log10 values: make sure float log10 reproduces the integers."""
-    grid = np.log10(np.array([p_of(c) for c in pn]))
-    return all(float(g) == float(c) for g, c in zip(grid, pn)) and math.log10(p_of(y)) == float(y)
+def coords_exact(pn, y, ys=1):
+    """The region dispatch compares log10 values.  Nodes (whole decades): float log10 must reproduce the integers.
+    A query off the nodes (fine lattice): its float log10 must lie strictly on the same side of every node as the
+    lattice coordinate does (its distance from the node, >= 1e-6 dex, is far above the rounding of log10)."""
+    if any(c % ys for c in pn):
+        return False
+    grid = np.log10(np.array([p_of(c, ys) for c in pn]))
+    if not all(float(g) == float(c // ys) for g, c in zip(grid, pn)):
+        return False
+    lg = math.log10(p_of(y, ys))
+    if y % ys == 0:
+        return lg == float(y // ys)
+    return all((lg < float(g)) == (y < c) and lg != float(g) for g, c in zip(grid, pn))
 
 
-def build(tn, pn, tabs, mode, unit, layout):
-    """One fixture holding len(tabs) tables along the wavenumber axis."""
+def t_of(x, xs=1):
+    return float(x // xs) if x % xs == 0 else x / xs
+
+
+def logical_table(tn, pn, tabs, unit, layout):
+    """One logical table (cm^2) holding len(tabs) tables along the wavenumber axis; k-table layout: g = 0 carries the
+    table, g = 1 three times the table."""
     K = len(tabs)
     wn = np.arange(1, K + 1) * 100.0
     x = np.zeros((len(pn), len(tn), K))
     for k, tab in enumerate(tabs):
         x[:, :, k] = np.array(tab, dtype=float)
     x *= 1e4 * unit
-    press = [p_of(c) for c in pn]
     if layout == 'xsec':
-        return GridOpacity('X', wn, tn, press, x, mode), wn
-    kc = np.stack([x, x * 3.0], axis=-1)
-    return GridKTable('X', wn, tn, press, kc, [0.25, 0.75], mode), wn
+        return wn, x
+    return wn, np.stack([x, x * 3.0], axis=-1)
 
 
-def judge(vec, got, unit):
-    """Return list of (clause, ok, detail) for one (vector, observed value in m^2)."""
+def build(tn, pn, tabs, mode, unit, layout, xs=1, ys=1, store=None, directory=None):
+    """One fixture holding len(tabs) tables along the wavenumber axis.  tn, pn: node coordinates on the lattice
+    (xs units per kelvin, ys per dex; nodes are whole kelvin / whole decades).  store: a storage class exported by
+    TableStorage.tla (memory order, element type, holder), None = C-contiguous float64 array handed directly."""
+    wn, x = logical_table(tn, pn, tabs, unit, layout)
+    press = [p_of(c, ys) for c in pn]
+    temps = [t_of(t, xs) for t in tn]
+    if store is not None:
+        from ..fx_opacstore import build_store
+        op, closer = build_store(store, directory, wn, temps, press, x, [0.25, 0.75], mode)
+        op._verif_close = closer
+        return op, wn
+    if layout == 'xsec':
+        return GridOpacity('X', wn, temps, press, x, mode), wn
+    return GridKTable('X', wn, temps, press, x, [0.25, 0.75], mode), wn
+
+
+def judge(vec, got, unit, rel=REL, relto_hi=False):
+    """Return list of (clause, ok, detail) for one (vector, observed value in m^2).
+    rel: relative tolerance of the arithmetic (REL for 8-byte tables; the storage class's own for 4-byte tables, then
+    measured against the largest bracketing node: relto_hi)."""
     out = []
     g = got / unit
     reg = vec['reg']
@@ -67,24 +109,55 @@ def judge(vec, got, unit):
     out.append(('non_negative', finite and g >= 0.0, 'got %r' % g))
     if reg == 'zero':
         # documented exception; the nearest-node value would also satisfy the bounds clause
-        out.append(('zero_below_both_minima', finite and (g == 0.0 or lo * (1 - REL) <= g <= hi * (1 + REL)), 'got %r' % g))
+        out.append(('zero_below_both_minima', finite and (g == 0.0 or lo * (1 - rel) <= g <= hi * (1 + rel)), 'got %r' % g))
         return out
-    tol = REL * max(abs(hi), 1e-300)
+    tol = rel * max(abs(hi), 1e-300)
     out.append(('bracket_bounded', finite and lo - tol <= g <= hi + tol, 'got %r hull [%r,%r]' % (g, lo, hi)))
     if vec['inside']:
-        out.append(('inside_value_' + vec['mode'], finite and close(g, exp, rel=REL, abs_=1e-300),
-                    'got %r expected %r' % (g, exp)))
+        ok = finite and (abs(g - exp) <= tol if relto_hi else close(g, exp, rel=rel, abs_=1e-300))
+        out.append(('inside_value_' + vec['mode'], ok, 'got %r expected %r' % (g, exp)))
         if vec['x'] in vec['tn'] and vec['y'] in vec['pn']:
             node = vec['tab'][vec['pn'].index(vec['y'])][vec['tn'].index(vec['x'])]
-            out.append(('node_exact', finite and close(g, float(node), rel=REL), 'got %r node %r' % (g, node)))
+            ok = finite and (abs(g - float(node)) <= tol if relto_hi else close(g, float(node), rel=rel))
+            out.append(('node_exact', ok, 'got %r node %r' % (g, node)))
     return out
 
 
-def run_vectors(ctx, vecs, label):
+def std_passes():
+    return [dict(layout='xsec', unit=u) for u in UNITS] + [dict(layout='ktable', unit=UNITS[0])]
+
+
+def store_pass(st):
+    """Pass through one storage class exported by TableStorage.tla: mag is the decimal exponent of the STORED (cm^2)
+    values, the values returned (m^2) are 1e4 times smaller."""
+    tol = frac(st['tol'])
+    return dict(layout=st['layout'], unit=10.0 ** -(st['mag'] + 4), store=st,
+                rel=float(tol) if tol else REL, relto_hi=bool(tol))
+
+
+def pass_cls(ps):
+    st = ps.get('store')
+    if st is None:
+        return ps['layout']
+    return '%s:store:%s:%s:%s' % (ps['layout'], st['holder'], ''.join(str(a) for a in st['order']), st['dtype'])
+
+
+def edge_cls(v):
+    return ':edge:%s/%s' % (v['sx'], v['sy']) if 'sx' in v else ''
+
+
+def close_op(op):
+    c = getattr(op, '_verif_close', None)
+    if c:
+        c()
+
+
+def run_vectors(ctx, vecs, label, passes=None, subranges=True, tmpdir=None):
     """vecs: exported by TLC for one (tn, pn, mode).  Group by query so each call serves all tables."""
     if not vecs:
         raise Machinery('no vectors exported for ' + label)
     tn, pn, mode = vecs[0]['tn'], vecs[0]['pn'], vecs[0]['mode']
+    xs, ys = vecs[0].get('xs', 1), vecs[0].get('ys', 1)
     tabs = []
     for v in vecs:
         if v['tab'] not in tabs:
@@ -92,14 +165,31 @@ def run_vectors(ctx, vecs, label):
     byq = {}
     for v in vecs:
         byq.setdefault((v['x'], v['y']), {})[tabs.index(v['tab'])] = v
-    for layout in ('xsec', 'ktable'):
-        for unit in (UNITS if layout == 'xsec' else UNITS[:1]):
-            op, wn = build(tn, pn, tabs, mode, unit, layout)
+    for (x, y) in byq:
+        if not coords_exact(pn, y, ys):
+            raise Machinery('log10 not faithful for coordinates %r %r (scale %r)' % (pn, y, ys))
+    for ps in (passes if passes is not None else std_passes()):
+        layout, unit = ps['layout'], ps['unit']
+        pcls = pass_cls(ps)
+        extra = dict(unit=unit, layout=layout)
+        if ps.get('store') is not None:
+            extra['store'] = ps['store']
+        try:
+            op, wn = build(tn, pn, tabs, mode, unit, layout, xs, ys, ps.get('store'), tmpdir)
+            err = None
+        except Machinery:
+            raise
+        except Exception as e:     # noqa -- a reader / the cache refused a table inside the quantifier
+            err = '%s: %s' % (type(e).__name__, e)
+        if ps.get('store') is not None or err is not None:
+            ctx.verdict('storage_class_served', err is None, cls='%s:%s' % (mode, pcls), detail='building the opacity object: %s' % err,
+                        vector=dict(vecs[0], **extra))
+        if err is not None:
+            continue
+        try:
             for (x, y), d in sorted(byq.items()):
-                if not coords_exact(pn, y):
-                    raise Machinery('log10 not exact for coordinates %r %r' % (pn, y))
-                T, P = float(x), p_of(y)
-                for sub in (None, (1, max(2, len(tabs) - 1))):
+                T, P = t_of(x, xs), p_of(y, ys)
+                for sub in ((None, (1, max(2, len(tabs) - 1))) if subranges else (None,)):
                     idx = list(range(len(tabs))) if sub is None else list(range(sub[0], sub[1]))
                     shape = (len(idx),) if layout == 'xsec' else (len(idx), 2)
                     try:
@@ -108,9 +198,10 @@ def run_vectors(ctx, vecs, label):
                     except Exception as e:     # noqa -- the implementation raised for a query inside the quantifier
                         err = '%s: %s' % (type(e).__name__, e)
                     anyv = next(iter(d.values()))
-                    ctx.verdict('one_value_per_requested_point', err is None, cls='%s:%s:%s%s' % (anyv['reg'], mode, layout, '' if sub is None else ':subrange'),
+                    ctx.verdict('one_value_per_requested_point', err is None,
+                                cls='%s:%s:%s%s%s' % (anyv['reg'], mode, pcls, '' if sub is None else ':subrange', edge_cls(anyv)),
                                 detail='opacity(T=%r, P=%r%s): %s' % (T, P, '' if sub is None else ', sub-range', err),
-                                vector=dict(anyv, unit=unit, layout=layout, sub=sub))
+                                vector=dict(anyv, sub=sub, **extra))
                     if err is not None:
                         continue
                     res = res.reshape(shape)
@@ -119,18 +210,32 @@ def run_vectors(ctx, vecs, label):
                         if v is None:
                             continue
                         gots = [res[j]] if layout == 'xsec' else [res[j, 0], res[j, 1] / 3.0]
+                        vd, vcls = None, '%s:%s:%s%s' % (v['reg'], mode, pcls, edge_cls(v))
                         for got in gots:
-                            for clause, ok, detail in judge(v, float(got), unit):
-                                ctx.verdict(clause, ok, cls='%s:%s:%s' % (v['reg'], mode, layout), detail=detail,
-                                            vector=dict(v, unit=unit, layout=layout, sub=sub))
+                            for clause, ok, detail in judge(v, float(got), unit, ps.get('rel', REL), ps.get('relto_hi', False)):
+                                if not ok or vd is None:
+                                    vd = dict(v, sub=sub, **extra)
+                                ctx.verdict(clause, ok, cls=vcls, detail=detail, vector=vd)
+        finally:
+            close_op(op)
 
 
 def one_vector(ctx, v):
     """Replay of a single stored vector."""
-    op, wn = build(v['tn'], v['pn'], [v['tab']], v['mode'], v.get('unit', 1.0), v.get('layout', 'xsec'))
-    res = np.asarray(op.opacity(float(v['x']), p_of(v['y']))).ravel()
-    for clause, ok, detail in judge(v, float(res[0]), v.get('unit', 1.0)):
-        ctx.verdict(clause, ok, cls='%s:%s:%s' % (v['reg'], v['mode'], v.get('layout', 'xsec')), detail=detail, vector=v)
+    st = v.get('store')
+    ps = store_pass(st) if st else dict(layout=v.get('layout', 'xsec'), unit=v.get('unit', 1.0))
+    tmp = tempfile.mkdtemp(prefix='c04replay_') if st else None
+    try:
+        op, wn = build(v['tn'], v['pn'], [v['tab']], v['mode'], ps['unit'], ps['layout'], v.get('xs', 1), v.get('ys', 1), st, tmp)
+        res = np.asarray(op.opacity(t_of(v['x'], v.get('xs', 1)), p_of(v['y'], v.get('ys', 1)))).ravel()
+        close_op(op)
+        for clause, ok, detail in judge(v, float(res[0]), ps['unit'], ps.get('rel', REL), ps.get('relto_hi', False)):
+            ctx.verdict(clause, ok, cls='%s:%s:%s%s' % (v['reg'], v['mode'], pass_cls(ps), edge_cls(v)), detail=detail, vector=v)
+    finally:
+        if tmp:
+            from ..fixtures import reset_caches
+            reset_caches()
+            shutil.rmtree(tmp, ignore_errors=True)
 
 
 def random_events(rng, n, mode):
@@ -312,22 +417,82 @@ def run_histories(ctx, nwalks):
 def run(ctx):
     q = ctx.tier == 'quick'
     ctx.bounds = dict(tier=ctx.tier, exhaustive='3x3 (lin) / 2x3 or 3x3 (exp) tables over small value sets, all node/edge/mid/outside queries',
-                      vectors='one-hot + 3 generic tables on two node layouts, both modes, xsec + k-table layouts, 3 magnitudes, sub-range grids')
+                      vectors='one-hot + 3 generic tables on two node layouts, both modes, xsec + k-table layouts, 3 magnitudes, sub-range grids',
+                      edges='fine lattice 1e-3 K x 1e-6 dex: queries 1, 30 (T) / 1, 30, 1000 (P) lattice units beside every node, crossed with coarse queries',
+                      storage='named axis orders (quick) / all 24 + 6 permutations (thorough), float64 / float32, array / pickle / HDF5 streamed, in memory / OpacityCache, stored values down to 1e-40 cm2')
     ctx.assumptions = ['float pow() evaluates a^(1-w) b^w from exact rationals (analytic lemma: monotone in w)',
                        'TLC + CommunityModules Json/IOUtils', 'fixtures subclass InterpolatingOpacity/KTable only to supply tables']
     for mode in ('lin', 'exp'):
         ctx.check_spec('exhaustive-%s' % mode, 'MC_Interp', 'MC_Interp_%s_%s.cfg' % (mode, ctx.tier), need_actions=('Eval',))
     ctx.exhaustive = True
-    for cfg in ('EX_Interp_lin.cfg', 'EX_Interp_exp.cfg', 'EX_Interp_lin2.cfg', 'EX_Interp_exp2.cfg', 'EX_Interp_lin3.cfg', 'EX_Interp_exp3.cfg'):
-        res = ctx.check_spec('export-' + cfg, 'MC_Interp', cfg, workers=1)
-        vecs = res.tagged('VEC')
+    def uniq_vecs(res):
         seen, uniq = set(), []
-        for v in vecs:
+        for v in res.tagged('VEC'):
             key = repr(v)
             if key not in seen:
                 seen.add(key)
                 uniq.append(v)
-        run_vectors(ctx, uniq, cfg)
+        return uniq
+
+    keep = {}
+    for cfg in ('EX_Interp_lin.cfg', 'EX_Interp_exp.cfg', 'EX_Interp_lin2.cfg', 'EX_Interp_exp2.cfg', 'EX_Interp_lin3.cfg', 'EX_Interp_exp3.cfg'):
+        res = ctx.check_spec('export-' + cfg, 'MC_Interp', cfg, workers=1)
+        keep[cfg] = uniq_vecs(res)
+        run_vectors(ctx, keep[cfg], cfg)
+
+    # -- a hair inside / outside every edge, beside every node (fine lattice; the dispatch is exact)
+    ctx.expect_refuted('edge-tolerance-P (expected counterexample)', 'MC_InterpEdge', 'XC_InterpEdge_tolP.cfg', 'BracketBounded', workers=1)
+    if not q:
+        ctx.expect_refuted('edge-tolerance-T (expected counterexample)', 'MC_InterpEdge', 'XC_InterpEdge_tolT.cfg', 'ZeroBelowBothMinima', workers=1)
+    nedge = 0
+    for cfg in ('EX_InterpEdge_lin.cfg', 'EX_InterpEdge_exp.cfg'):
+        res = ctx.check_spec('export-' + cfg, 'MC_InterpEdge', cfg, workers=1)
+        vecs = uniq_vecs(res)
+        sides = {(v['sx'], v['sy']) for v in vecs}
+        for need in (('coarse', 'out'), ('coarse', 'in'), ('node', 'beside'), ('out', 'coarse'), ('in', 'node'), ('beside', 'coarse')):
+            if need not in sides:
+                raise Machinery('vacuous: no query of class %r exported by %s' % (need, cfg))
+        nedge += len(vecs)
+        passes = [dict(layout='xsec', unit=UNITS[0]), dict(layout='ktable', unit=UNITS[0])] if q else std_passes()
+        run_vectors(ctx, vecs, cfg, passes=passes, subranges=not q)
+    ctx.note('edge vectors (queries 1e-6 .. 1e-3 dex / 1e-3 .. 3e-2 K beside every node): %d' % nedge)
+
+    # -- storage classes of the table (memory order of the axes, element type, holder)
+    ctx.expect_refuted('memory-order-flatten (expected counterexample)', 'TableStorage', 'XC_TableStorage_memorder.cfg', 'PlaneHandedLogical', workers=1)
+    res = ctx.check_spec('export-storage-classes', 'TableStorage', 'EX_TableStorage_%s.cfg' % ctx.tier, workers=1)
+    stores = res.tagged('STORE')
+    have = {(st['layout'], st['holder']) for st in stores}
+    for lay, holders in (('xsec', ('array', 'pickle', 'hdf5_stream', 'hdf5_memory', 'cache_pickle', 'cache_hdf5')),
+                         ('ktable', ('array', 'pickle', 'hdf5_stream', 'hdf5_memory'))):
+        for h in holders:
+            if (lay, h) not in have:
+                raise Machinery('vacuous: storage class %s/%s not exported' % (lay, h))
+    if not any(st['layout'] == 'ktable' and not st['wnmajor'] for st in stores) or not any(st['dtype'] == 'f4' for st in stores):
+        raise Machinery('vacuous: no g-major k-table / no 4-byte storage class exported')
+    from ..fixtures import reset_caches
+    tmp = tempfile.mkdtemp(prefix='c04store_')
+    nstorevec = 0
+    try:
+        for cfg in ('EX_Interp_lin3.cfg', 'EX_Interp_exp3.cfg'):
+            vecs = keep[cfg]
+            if q:       # quick: the generic (all entries distinct) tables and two of the one-hot tables on the wavenumber axis
+                tabs = []
+                for v in vecs:
+                    if v['tab'] not in tabs:
+                        tabs.append(v['tab'])
+                generic = [t for t in tabs if len({e for row in t for e in row}) > 2]
+                onehot = [t for t in tabs if t not in generic]
+                chosen = generic + onehot[:1] + onehot[-1:]
+                vecs = [v for v in vecs if v['tab'] in chosen]
+                if len(generic) < 3 or len(chosen) < 5:
+                    raise Machinery('storage vectors: generic tables not found')
+            nstorevec += len(vecs)
+            run_vectors(ctx, vecs, cfg + ':storage', passes=[store_pass(st) for st in stores], tmpdir=os.path.join(tmp, 's'))
+    finally:
+        reset_caches()
+        shutil.rmtree(tmp, ignore_errors=True)
+    ctx.note('storage classes driven (layout x holder x axis order x element type x magnitude): %d, each through %d vectors (both modes)'
+             % (len(stores), nstorevec))
     run_traces(ctx, 1500 if q else 12000, 800 if q else 6000)
     nh = run_histories(ctx, 10 if q else 60)
     ctx.note('history walks on long-lived opacity objects (mode switches on the object and through the cache, sub-ranges, all regions): %d' % nh)
